@@ -35,7 +35,12 @@ def make_opts(rng: random.Random) -> GenOpts:
 
 def build_case(seed: int, stream: int) -> dict:
     rng = random.Random(f'{PROP}:{seed}:{stream}')
-    gen = ModelGen(rng, make_opts(rng)).generate()
+    opts = make_opts(rng)
+    if stream % 10 == 9:
+        # namespaces nested far deeper than the generator's own trees: 17, 33, 65, 80 levels
+        opts.chain_depth = [17, 33, 65, 80, 64][(stream // 10) % 5]
+        opts.max_ns_depth, opts.noise, opts.reuse_names = 1, 0.0, 0.0
+    gen = ModelGen(rng, opts).generate()
     if rng.random() < 0.3:
         gen.model.comment = rng.choice(['// c', '', 'multi\nline'])
     doc = M.to_json(gen.model, decorate=rng.random() < 0.5, rng=rng)
@@ -104,6 +109,9 @@ def eval_case(case: dict) -> dict:
     kinds = sum(1 for v in expect.values() if v)
     depth = max([len(e['ns']) for v in expect.values() for e in v if 'ns' in e] or [0])
     res['counts'][f'ns_depth_{min(depth, 6)}'] = 1
+    for mark in (16, 32, 64):
+        if depth > mark:
+            res['counts'][f'documents_nested_deeper_than_{mark}_namespaces'] = 1
     res['nontrivial'] = depth >= 1 and kinds >= 3
     res['digest'] = common.digest(doc)
     res['sample'] = {'kinds_present': [k for k, v in expect.items() if v], 'ns_depth': depth,
@@ -120,7 +128,8 @@ def _worker(arg):
 def main(tier: str) -> int:
     run = common.Run(PROP, tier)
     n = 300 if tier == 'quick' else 100000
-    run.require('entries_compared', 'results_compared_again_after_use_by_the_caller')
+    run.require('entries_compared', 'results_compared_again_after_use_by_the_caller',
+                'documents_nested_deeper_than_16_namespaces', 'documents_nested_deeper_than_64_namespaces')
     for item, res in run.pmap(_worker, [(run.seed, i) for i in range(n)], chunksize=25):
         common.absorb(run, {'seed': item[0], 'stream': item[1]}, res)
     return run.finish(
